@@ -8,6 +8,7 @@ import (
 	"regexp"
 	"sort"
 	"strings"
+	"sync"
 
 	gengotypes "github.com/octohelm/gengo/pkg/types"
 )
@@ -313,7 +314,32 @@ func siblingFile(src string) string {
 	return s
 }
 
+// eval: the questions are put by four goroutines at once — the very first questions about a freshly loaded package
+// arrive together — and every goroutine must be told the same
 func (c *layoutCase) eval(p gengotypes.Package) string {
+	const g = 4
+	outs := make([]string, g)
+	var wg sync.WaitGroup
+	start := make(chan struct{})
+	for i := 0; i < g; i++ {
+		wg.Add(1)
+		go func(i int) {
+			defer wg.Done()
+			<-start
+			outs[i] = c.evalOnce(p)
+		}(i)
+	}
+	close(start)
+	wg.Wait()
+	for i := 1; i < g; i++ {
+		if outs[i] != outs[0] {
+			return "askers-at-once-were-told-different-things:" + strings.ReplaceAll(outs[0], " ", "_") + "/" + strings.ReplaceAll(outs[i], " ", "_")
+		}
+	}
+	return outs[0]
+}
+
+func (c *layoutCase) evalOnce(p gengotypes.Package) string {
 	return guard(func() string {
 		if p == nil {
 			return "loaderr"
@@ -721,7 +747,7 @@ func init() {
 			Name: "layout", Quick: 1600, Thorough: 12000, New: func() Case { return &layoutCase{} },
 			Gen:      func(r *Rng, i int) Case { return genLayout(r) },
 			BatchRun: layoutBatch, ShrinkBudget: 60, MaxShrinks: 6,
-			Rule: "source files of 1–3 sections (ungrouped var/type/const, struct fields, grouped const/var/type) × 1–7 rows among blank line, 1–3-line comment group (line or block comments, tag lines, go: prose), one- or three-line declaration with or without trailing comment, multi-name declarations; loaded with the real types.Load (400 packages per load); Doc and Comment of every declared name compared with the model on the same layout and with the layout's own ground truth; the package holds a second file with the same line structure under other names and with other comment texts; every name is asked twice and the harness scribbles over the first answer (lines, comment, tag map) in between: the second answer must be the same",
+			Rule: "source files of 1–3 sections (ungrouped var/type/const, struct fields, grouped const/var/type) × 1–7 rows among blank line, 1–3-line comment group (line or block comments, tag lines, go: prose), one- or three-line declaration with or without trailing comment, multi-name declarations; loaded with the real types.Load (400 packages per load); Doc and Comment of every declared name compared with the model on the same layout and with the layout's own ground truth; the questions about a freshly loaded package are put by four goroutines at once and all must be told the same; the package holds a second file with the same line structure under other names and with other comment texts; every name is asked twice and the harness scribbles over the first answer (lines, comment, tag map) in between: the second answer must be the same",
 		},
 		{
 			Name: "layout-enum", New: func() Case { return &layoutCase{} },
